@@ -19,9 +19,10 @@ STATES = ["a", "b", "c"]
 EVENTS = ["go", "hop", "tick"]
 
 
-def chain_am(asyncs_all=False, with_listener=True, with_model=False, drop=()):
+def chain_am(asyncs_all=False, with_listener=True, with_model=False, drop=(), values=None):
+    values = values or {}
     am = {
-        "states": [{"id": "a", "initial": True}, {"id": "b"}, {"id": "c"}],
+        "states": [{"id": "a", "initial": True, "value": values.get("a")}, {"id": "b", "value": values.get("b")}, {"id": "c", "value": values.get("c")}],
         "transitions": [
             {"src": "a", "tgt": "b", "events": ["go"], "validators": ["v0"]},
             {"src": "b", "tgt": "c", "events": ["go"], "cond": ["ok1"]},
